@@ -404,3 +404,95 @@ def corrupt(rng, text):
         return "\n".join(lines), "stray-token"
     lines[i] = re.sub(r" = ([\w.]+)", lambda m: " = " + m.group(1).lower(), l, count=1)
     return "\n".join(lines), "lowercase-type"
+
+
+# --------------------------------------------------------------------------- C++ (C31)
+
+CPP_FLAGS = ["-std=c++20", "-O1", "-w"]
+CPP_CACHE = VERIF / "build" / "cpp"
+
+
+class CppPkg:
+    """C++ code generated by the legacy generator (`tlgen --language=cpp`) for a set of schema files,
+    compiled with harness/cpp/driver.cpp.  Object files and the linked driver are cached under
+    /verif/build/cpp/<hash of generated sources + driver + flags>."""
+
+    def __init__(self, scratch, name, tlgen, files):
+        self.dir = Path(scratch) / f"cpp_{name}"
+        self.name = name
+        self.tlgen = tlgen
+        self.files = [str(f) for f in files]
+        self.log = ""
+        self.exe = None
+        self.cached = False
+        self.hash = None
+        self.build_s = 0.0
+        self.failed_units = []
+
+    def generate(self):
+        if self.dir.exists():
+            shutil.rmtree(self.dir)
+        self.dir.mkdir(parents=True)
+        cmd = [str(self.tlgen), "--language=cpp", "--cpp-generate-factory=true", "--cpp-generate-meta=true",
+               f"--outdir={self.dir / 'gen'}"] + self.files
+        rc, so, se = sh(cmd, timeout=600)
+        self.log = so + se
+        return rc == 0
+
+    def sources(self):
+        gen = self.dir / "gen"
+        return sorted(p for p in gen.rglob("*.cpp") if p.name != "main.cpp")
+
+    def build(self, jobs=8, timeout=3000):
+        import time
+        from concurrent.futures import ThreadPoolExecutor
+        gen = self.dir / "gen"
+        drv = VERIF / "harness" / "cpp" / "driver.cpp"
+        h = hashlib.sha256()
+        h.update(" ".join(CPP_FLAGS).encode())
+        h.update(drv.read_bytes())
+        for p in sorted(list(gen.rglob("*.cpp")) + list(gen.rglob("*.h"))):
+            h.update(str(p.relative_to(gen)).encode())
+            h.update(p.read_bytes())
+        self.hash = h.hexdigest()[:24]
+        cdir = CPP_CACHE / self.hash
+        exe = cdir / "drv"
+        if exe.exists():
+            self.exe, self.cached = exe, True
+            return True
+        t0 = time.time()
+        tmp = CPP_CACHE / f".tmp-{self.hash}-{os.getpid()}"
+        if tmp.exists():
+            shutil.rmtree(tmp)
+        tmp.mkdir(parents=True)
+        units = [(p, tmp / (str(p.relative_to(gen)).replace("/", "_") + ".o")) for p in self.sources()] + [(drv, tmp / "driver.o")]
+
+        def cc(u):
+            src, obj = u
+            rc, so, se = sh(["g++"] + CPP_FLAGS + ["-I", str(gen), "-c", str(src), "-o", str(obj)], timeout=timeout)
+            return src, rc, so + se
+
+        ok = True
+        with ThreadPoolExecutor(max_workers=jobs) as ex:
+            for src, rc, out in ex.map(cc, units):
+                if rc != 0:
+                    ok = False
+                    self.failed_units.append(str(src.relative_to(gen)) if src != drv else "driver.cpp")
+                    self.log += f"\n--- {src}\n" + out[:3000]
+        if ok:
+            rc, so, se = sh(["g++", "-o", str(tmp / "drv")] + [str(o) for _, o in units], timeout=timeout)
+            if rc != 0:
+                ok = False
+                self.log += "\n--- link\n" + (so + se)[:3000]
+        self.build_s = round(time.time() - t0, 1)
+        if not ok:
+            shutil.rmtree(tmp, ignore_errors=True)
+            return False
+        for _, o in units:
+            o.unlink()
+        try:
+            tmp.rename(cdir)
+        except OSError:       # someone else finished the same build
+            shutil.rmtree(tmp, ignore_errors=True)
+        self.exe = exe
+        return exe.exists()
